@@ -6,6 +6,7 @@ import (
 	"fmt"
 	"math/rand"
 	"reflect"
+	"strings"
 
 	gpb "github.com/openconfig/gnmi/proto/gnmi"
 	"github.com/openconfig/ygot/gnmidiff"
@@ -142,8 +143,38 @@ func runC11(r *lib.Run) {
 			nodes := cfg.Nodes(t)
 			nd := nodes[rng.Intn(len(nodes))]
 			gp := lib.ToGNMIPath(nd.Path)
-			for _, gopts := range [][]ytypes.GetNodeOpt{nil, {&ytypes.GetPartialKeyMatch{}}, {&ytypes.GetHandleWildcards{}}, {&ytypes.GetTolerateNil{}}} {
-				call("GetNode", []snap{st(), snapProto("path", gp)}, func() { ytypes.GetNode(rootEntry, t, gp, gopts...) })
+			// path shapes a caller may hand in: the node's path, a leaf path, the same with a
+			// wildcard key, the "absolute" form with a leading empty element, with origin/target,
+			// and a path that matches nothing
+			gpaths := []*gpb.Path{gp}
+			if lps := cfg.Observe(t).SortedLeafPaths(); len(lps) > 0 {
+				if l := cfg.Observe(t).Leaves[lps[rng.Intn(len(lps))]]; !strings.Contains(l.Path, "[#") {
+					gpaths = append(gpaths, lib.ToGNMIPath(l.Elems))
+				}
+			}
+			for _, base := range append([]*gpb.Path(nil), gpaths...) {
+				abs := proto.Clone(base).(*gpb.Path)
+				abs.Elem = append([]*gpb.PathElem{{Name: ""}}, abs.Elem...)
+				wc := proto.Clone(base).(*gpb.Path)
+				for _, e := range wc.Elem {
+					for k := range e.Key {
+						e.Key[k] = "*"
+						break
+					}
+				}
+				ot := proto.Clone(base).(*gpb.Path)
+				ot.Origin, ot.Target = "openconfig", "dev1"
+				miss := proto.Clone(base).(*gpb.Path)
+				miss.Elem = append(miss.Elem, &gpb.PathElem{Name: "no-such-node"})
+				gpaths = append(gpaths, abs, wc, ot, miss)
+			}
+			for pi, gpath := range gpaths {
+				gpath := gpath
+				for _, gopts := range [][]ytypes.GetNodeOpt{nil, {&ytypes.GetPartialKeyMatch{}}, {&ytypes.GetHandleWildcards{}}, {&ytypes.GetTolerateNil{}}, {&ytypes.GetPartialKeyMatch{}, &ytypes.GetHandleWildcards{}, &ytypes.GetTolerateNil{}}} {
+					call("GetNode", []snap{st(), snapProto("path", gpath)}, func() { ytypes.GetNode(rootEntry, t, gpath, gopts...) })
+				}
+				r.HitN("getnode-path-shapes", 1)
+				_ = pi
 			}
 			lo := &ytypes.LeafrefOptions{IgnoreMissingData: true}
 			call("Validate", []snap{st(), snapOpt("LeafrefOptions", lo)}, func() { t.(validator).Validate(lo) })
